@@ -105,8 +105,8 @@ def pickleLine (compress : Bool) (ident : Nat → Nat) (s : Session) : String :=
   let st := store compress s
   let j := settingsJ ident st
   let e : Envelope := { id := 0, timeout := 0, step := s.step, stored := st }
-  let rt := if (pickleCodec ⟨true, true, true, true⟩ ident).dec ((pickleCodec ⟨true, true, true, true⟩ ident).enc e) == some e then "ok" else "FAIL"
-  let pl := match (pickleCodec ⟨false, true, true, true⟩ ident).dec ((pickleCodec ⟨false, true, true, true⟩ ident).enc e) with
+  let rt := if (pickleCodec ⟨true, true, true, true, true⟩ ident).dec ((pickleCodec ⟨true, true, true, true, true⟩ ident).enc e) == some e then "ok" else "FAIL"
+  let pl := match (pickleCodec ⟨false, true, true, true, true⟩ ident).dec ((pickleCodec ⟨false, true, true, true, true⟩ ident).enc e) with
     | some e' => if e' == e then "same" else "differs"
     | none => "differs"
   s!"{fmtPickle compress j};rt={rt};plain={pl}"
@@ -164,6 +164,16 @@ def instLine (i : Inst) (line : String) : Inst × Option String :=
   | ["endsession"] => ({ i with ist := stepReq i.cfg i.ist .endSession, pending := [] }, some "ok")
   | ["saveall"] => ({ i with ist := { i.ist with file := i.ist.session } }, some "ok")                    -- GET /save-state
   | ["saved"] => (i, some (fmtFile i.ist))
+  | ["cfgl", b] => ({ i with cfg := { i.cfg with loadInstallsStored := b == "1" } }, some "ok")
+  | ["ibegin", ps, a, d, z] =>                            -- begin-session on the instance-level machine only (no write)
+    match parseNats ps, a.toInt?, d.toInt?, z.toInt? with
+    | some ps, some a, some d, some z =>
+      ({ i with ist := stepReq i.cfg i.ist (.beginSession { paths := ps, start := a, dt := d, stop := z }), pending := [] }, some "ok")
+    | _, _, _, _ => (i, some "bad-op")
+  | ["loadstate"] => ({ i with ist := loadStateI i.cfg i.ist }, some "ok")                                  -- POST /load-state
+  | ["live"] => (i, some (match i.ist.session with
+      | none => "live=none"
+      | some f => s!"live:paths={",".intercalate (f.spec.paths.map toString)};step={f.step};n={f.settingsLog.length}"))
   | _ => (i, none)
 
 partial def loop (h : IO.FS.Stream) (s : Option Session) (i : Inst) : IO Unit := do
@@ -180,4 +190,4 @@ partial def loop (h : IO.FS.Stream) (s : Option Session) (i : Inst) : IO Unit :=
     loop h s' i'
 
 def main : IO Unit := do
-  loop (← IO.getStdin) none { cfg := { decoderResolvesRefs := true, saveAfterEveryStepRequest := true, restoreKeepsClock := true, compressIsPure := true }, ist := IState.init, pending := [] }
+  loop (← IO.getStdin) none { cfg := { decoderResolvesRefs := true, saveAfterEveryStepRequest := true, restoreKeepsClock := true, compressIsPure := true, loadInstallsStored := true }, ist := IState.init, pending := [] }
